@@ -13,7 +13,7 @@ import (
 
 func init() {
 	register(&Rule{ID: "C16.R13", Props: []string{"C16"}, Min: 4, Needs: NeedTool,
-		Doc: "the type resolver visits every child type the parser builds: in the tars2go parser, for every kind K of ast.VarType and every child field F (a field of type *VarType: TypeK, TypeV) that the parser fills for a type of kind K — in a `case token.K:` clause of the type parser or in a composite literal `VarType{Type: token.K, F: …}` — the function that resolves named types (the one that assigns VarType.CType) calls itself on `ty.F` under the condition `ty.Type == token.K`; a child that is not visited keeps CType unset, so an enum or a struct of another module used there is emitted as a local struct (ReadBlock/WriteBlock on an enum does not compile, no import, no `not find define` diagnostic)",
+		Doc: "the type resolver visits every child type the parser builds: in the tars2go parser, for every kind K of ast.VarType and every child field F (a field of type *VarType: TypeK, TypeV) that the parser fills for a type of kind K — in a `case token.K:` clause of the type parser or in a composite literal `VarType{Type: token.K, F: …}` — the function that resolves named types (the one that assigns VarType.CType) reads `ty.F` under the condition `ty.Type == token.K` (if/else-if chain, `||`, switch on ty.Type; or under no kind condition at all) in a branch in which it calls itself — directly on `ty.F`, through a local, or in a loop over a list of the children; a child that is not visited keeps CType unset, so an enum or a struct of another module used there is emitted as a local struct (ReadBlock/WriteBlock on an enum does not compile, no import, no `not find define` diagnostic)",
 		Run: func(r *R) {
 			pp := r.w.PPkg("parse")
 			if pp == nil || pp.TypesInfo == nil {
@@ -128,7 +128,11 @@ func init() {
 			}
 			type pair struct{ k, f string }
 			built := map[pair]token.Pos{}
-			visited := map[pair]bool{}
+			reads := map[pair]bool{}
+			recIn := map[string]bool{}
+			visited := func(p pair) bool {
+				return (reads[p] && recIn[p.k]) || (reads[pair{"*", p.f}] && recIn["*"])
+			}
 			var resolver *ast.FuncDecl
 			// find the resolver: the function that assigns VarType.CType
 			for _, f := range pp.Syntax {
@@ -242,16 +246,26 @@ func init() {
 							if callee == nil || callee != resObj {
 								return
 							}
-							for _, a := range x.Args {
-								if fl := childField(a); fl != "" {
-									ks := kindsAt(append(stack, n))
-									for _, k := range ks {
-										visited[pair{k, fl}] = true
-									}
-									if len(ks) == 0 {
-										// visited whatever the kind (e.g. under `if ty.F != nil`)
-										visited[pair{"*", fl}] = true
-									}
+							ks := kindsAt(append(stack, n))
+							if len(ks) == 0 {
+								ks = []string{"*"}
+							}
+							for _, k := range ks {
+								recIn[k] = true
+							}
+						case *ast.SelectorExpr:
+							// a read of ty.F in the resolver (directly as argument, through a local, or as
+							// element of a list that is looped over), under the kind in force
+							if fd != resolver {
+								return
+							}
+							if fl := childField(x); fl != "" {
+								ks := kindsAt(append(stack, n))
+								if len(ks) == 0 {
+									ks = []string{"*"}
+								}
+								for _, k := range ks {
+									reads[pair{k, fl}] = true
 								}
 							}
 						}
@@ -269,7 +283,7 @@ func init() {
 				return keys[i].f < keys[j].f
 			})
 			for _, p := range keys {
-				r.Check(visited[p] || visited[pair{"*", p.f}], "tars2go/parse."+resolver.Name.Name, "child "+p.f+" of kind "+p.k, built[p], "the resolver calls itself on ty."+p.f+" under ty.Type == token."+p.k, "the parser builds a %s type with child %s, but %s does not visit ty.%s when ty.Type == token.%s: a named type used there is never resolved (an enum is emitted as a struct: the generated code does not compile; a type of another module gets no import; an undefined name gets no diagnostic)", p.k, p.f, resolver.Name.Name, p.f, p.k)
+				r.Check(visited(p), "tars2go/parse."+resolver.Name.Name, "child "+p.f+" of kind "+p.k, built[p], "the resolver calls itself on ty."+p.f+" under ty.Type == token."+p.k, "the parser builds a %s type with child %s, but %s does not visit ty.%s when ty.Type == token.%s: a named type used there is never resolved (an enum is emitted as a struct: the generated code does not compile; a type of another module gets no import; an undefined name gets no diagnostic)", p.k, p.f, resolver.Name.Name, p.f, p.k)
 			}
 		}})
 }
